@@ -337,6 +337,11 @@ func applyOps(vc *vlib.VCluster, ops []kop, phase string, rec *krecord, sys *vli
 		case "ns-delete":
 			if _, ok := vc.NsLabels(o.Ns); ok {
 				vc.DeleteNamespace(o.Ns)
+				for key, h := range vc.History {
+					if strings.HasPrefix(key, o.Ns+"/") && len(h) > 0 && h[len(h)-1].Deleted && rec.PhaseOf[h[len(h)-1].Gen] == "" {
+						rec.PhaseOf[h[len(h)-1].Gen] = phase
+					}
+				}
 				rec.Trace = append(rec.Trace, fmt.Sprintf("[%s] namespace %s deleted with its objects", phase, o.Ns))
 			}
 		case "stall-watches":
